@@ -397,7 +397,13 @@ func (cr *concRun) checkEvents() {
 	}
 	for k := range keys {
 		if atomicN[k] != asyncN[k] {
-			cr.fail(P("C06"), "event.ondeletion-mismatch", k.k, "key %d value %d cause %s: %d atomic events, %d OnDeletion notifications at quiescence", k.k, k.v, k.cause, atomicN[k], asyncN[k])
+			props := P("C06")
+			if k.cause == otter.CauseExpiration && asyncN[k] < atomicN[k] {
+				// C13: "... and its Expiration event has been delivered" - after the final CleanUp and the
+				// drained executor an expired entry whose notification never arrives was not reported
+				props = P("C06", "C13")
+			}
+			cr.fail(props, "event.ondeletion-mismatch", k.k, "key %d value %d cause %s: %d atomic events, %d OnDeletion notifications at quiescence", k.k, k.v, k.cause, atomicN[k], asyncN[k])
 		}
 	}
 }
